@@ -33,7 +33,7 @@ CHECKS = {
    ref="DESIGN.md §4 C06"),
  "C07": dict(
    text="Same real code as C06 in the property's situation: a ready filtered subscription over <=2 parent objects with nothing in flight, then Refilter(f2) and optionally Refilter(f3) with filters from {three arbitrary filters, accept-all, accept-none}; z3 shows the events observed are exactly one Delete per cached object the new filter rejects and one Create per parent object newly accepted, nothing for an equal filter, and that returning to the first filter restores the first view.",
-   note="Bounds: parent content <=2 (thorough 3) objects with symbolic keys/versions; 1-2 refilter steps over 5 filters (all ordered pairs, and triples ending anywhere); immediate subscriptions and for-filter (deferred) subscriptions that became ready through their first Refilter (before or after the parent was ready). Arbitrary filters are uninterpreted functions, which subsumes equal/overlapping/disjoint families.",
+   note="Bounds: parent content <=2 (thorough 3) objects with symbolic keys/versions; 1-2 refilter steps over 8 filters (three arbitrary ones, accept-all, accept-none, and three nested NSName filters over the parent's own keys; all ordered pairs, and triples ending anywhere); immediate subscriptions and for-filter (deferred) subscriptions that became ready through their first Refilter (before or after the parent was ready). Arbitrary filters are uninterpreted functions, which subsumes equal/overlapping/disjoint families.",
    ref="DESIGN.md §4 C07"),
  "C08": dict(
    text="Real filterSubscription.run (immediate and deferred) driven by the property's action alphabet {parent ready, Refilter(equal), Refilter(new), parent change} in every order up to K, with two concurrent observers: one waits for Ready() and immediately reads the cache, one waits for the first event. z3 shows Ready closes iff the parent is ready (and, deferred, a filter was supplied), the read made on observing Ready is the filtered parent content of some moment, and the first event is delivered only after Ready closed.",
@@ -53,11 +53,11 @@ CHECKS = {
    ref="DESIGN.md §4 C13"),
  "C14": dict(
    text="Real controller.run with the k-th list result (k<=3) being a client error, a non-list object, a list whose items are not API objects, or an object without list accessor; the engine explores all interleavings and shows the controller is Done, Error() is non-nil and (for a client error) its cause chain ends in the injected error, the cache is shut down, no further list is applied, nothing is ready when k=1, every library goroutine has exited; a deliberate Close() reports no error. Watch faults never terminate the controller (C03/C04 harnesses assert it for every fault sequence they explore).",
-   note="Bounds: k<=3 (thorough 4); a tree entry runs the controller with its REAL subscription and publisher and a subscriber (thorough: plus a filtered subscriber) and asserts the whole subtree is Done with Events() closed. meta.ExtractList is modelled (reflection), meta.ListAccessor runs for real. The subscriber tree below a real Builder.Create() composition is covered by C11/C12.",
+   note="Bounds: k<=3 (thorough 4); a lister entry runs the REAL lister (executeList) with the k-th list call failing with a client error, an error that is or wraps context.Canceled although nothing was cancelled, or a non-list object, and asserts the failure reaches the controller; a tree entry runs the controller with its REAL subscription and publisher and a subscriber (thorough: plus a filtered subscriber) and asserts the whole subtree is Done with Events() closed. meta.ExtractList is modelled (reflection), meta.ListAccessor runs for real. The subscriber tree below a real Builder.Create() composition is covered by C11/C12.",
    ref="DESIGN.md §4 C14"),
  "C04": dict(
    text="The real watcher and watch sessions run under the real controller loop against a fake API server with a history of n events (symbolic keys, solver-chosen types): every Watch(rv) call either fails or streams the events newer than rv interleaved with Status / Bookmark frames, and may close before any event or after the burst, within a fault budget; retry timers fire as environment transitions; exactly one list is delivered. All interleavings of controller, watcher, sessions, streams and timers are explored (sleep sets + state cache). At quiescence every event of the history has been applied to the cache in history order (replays allowed, skips not) and published, every Watch call resumes at the list version or at an event version, and neither watcher nor controller has terminated.",
-   note="Bounds: quick n<=2 events and <=1 fault (connect error or close at any position), thorough n<=3 and <=2 faults; the final Watch call is served without fault (otherwise the premise 'the server emits it' fails); EventBufsiz scaled to 3 (4) - no overflow occurs within the bound. Consumer/producer speed ratios = all interleavings.",
+   note="Bounds: quick n<=2 events with <=1 fault and n<=1 with <=2 faults (connect error or close at any position), thorough n<=3 and <=2 faults; the final Watch call is served without fault (otherwise the premise 'the server emits it' fails); EventBufsiz scaled to 3 (4) - no overflow occurs within the bound. Consumer/producer speed ratios = all interleavings.",
    ref="DESIGN.md §4 C04"),
  "C05": dict(
    text="Real publisher.run / _subscription.run (and clones of clones) below a fake root subscription: the environment publishes opaque events and attaches subscribers and clones at solver-chosen points of the stream (optionally at a quiescent moment), in every order up to K actions, including closing one of the subscribers mid-stream, with every iteration order of the publisher's subscription map; all interleavings explored. At quiescence z3/the engine show every subscriber received a contiguous suffix of the published sequence, in order, without duplicate, containing at least every event published after its Subscribe returned (exactly those when it subscribed at a quiescent moment). The cache-not-older clause is asserted in the controller harness (send happens after the cache update).",
@@ -81,11 +81,11 @@ CHECKS = {
    ref="DESIGN.md §4 C15"),
  "C09": dict(
    text="Wiring link of the join property, on real code: each of the 8 generated XYsWith joins (through its default wrapper) and IngressPods runs with the real typed monitors and kcache.monitor between fake untyped controllers (typed objects are the real typed wrappers). The environment makes the source ready and performs K source changes (appear / change / disappear, symbolic namespaces, names, selectors); at every quiescent point z3 shows the filter most recently handed to the destination's for-filter clone equals (FiltersEqual, and agrees on a symbolic pod with) the join's selection rule applied to the current source content, that nothing is refiltered before the source is ready, and that closing the result closes the clone and the monitor's subscription, leaves source and destination running, and leaves no library goroutine behind; for IngressPods also that the intermediate join is closed.",
-   note="Compositional claim: join cache = destination objects selected by current source objects follows from this link + C19 (selection rules) + C06/C08 (for-filter clone content and readiness) + C16 (monitor ordering); the end-to-end system of two controllers is not explored as one state space. Bounds: <=1 initial source object, K<=2 (thorough 3) changes, selectors with one symbolic label; for ServicePods additionally a concrete-label variant checked against an independent statement of the selection rule (not the library's PodsFilter). Source namespaces are assumed non-empty.",
+   note="Compositional claim: join cache = destination objects selected by current source objects follows from this link + C19 (selection rules) + C06/C08 (for-filter clone content and readiness) + C16 (monitor ordering); the end-to-end system of two controllers is not explored as one state space. Bounds: <=1 initial source object, K<=2 (thorough 3) changes, selectors with one symbolic label; for ServicePods additionally a concrete-label variant checked against an independent statement of the selection rule (not the library's PodsFilter), and an end-to-end entry whose destination is REAL (publisher, for-filter clone with its filterSubscription and cache actor, typed wrappers): for every order of <=3 (4) actions {source ready, destination ready, pod arrives, source selection changes} the join is ready iff both sides are and its cache holds exactly the pods selected by the current source objects. Source namespaces are assumed non-empty.",
    ref="DESIGN.md §4 C09"),
  "C20": dict(
    text="Decided semantically, with the identical harness text generated for each of the 12 typed packages: adaptList/typed cache List/Get/wrapEvent on symbolic mixed lists of own-typed and foreign-typed objects equal the untyped result restricted to the type; the real typed subscription.run and typed NewMonitor (over the real kcache.monitor) forward exactly the own-typed events in order and skip foreign ones; Ready/Done/Close/Refilter delegate to the parent; each typed NewClient asks client.ForResource for the API group accessor, resource name and (symbolic) namespace of its own type, the empty namespace passed through. The 8 generated joins satisfy one common wiring specification (C09 harness).",
-   note="Not applicable clauses (stated in DESIGN.md §5): textual equality of generated sources with the instantiated template is a syntactic diff, not a solver question - replaced by behavioural equivalence to one specification; the HTTP paths/queries built by client-go are outside the interpretable subset - only the arguments kcache passes (group client, resource, namespace) are checked. Bounds: lists <=3 (4) objects, streams <=2 (3) events.",
+   note="Not applicable clauses (stated in DESIGN.md §5): textual equality of generated sources with the instantiated template is a syntactic diff, not a solver question - replaced by behavioural equivalence to one specification; the HTTP paths/queries built by client-go are outside the interpretable subset - only the arguments kcache passes (group client, resource, namespace) are checked. Bounds: lists <=3 (4) objects, streams <=2 (3) events; a lifecycle entry calls all six typed Publisher operations on a running and on a stopped core and asserts typed objects resp. the core's error without an object or a crash.",
    ref="DESIGN.md §4 C20"),
 }
 NOT_APPLICABLE = {}
